@@ -15,7 +15,7 @@ from ..infer import NODE, SLOT
 from ..model import AnalysisError, Func, iter_own, norm
 from ..pat import find, has, match, one
 from .trav import _if_chain
-from .util import cond_texts, exit_cases, find_cases, find_under, local_value, not_after, path_conds, reaching_values, resolve_expr, split_cond, raised_class, stmt_index, stmts_before
+from .util import cond_texts, exit_cases, find_cases, find_under, local_value, not_after, path_conds, reaching_values, resolve_expr, split_cond, raised_class, stmt_index, stmts_before, new_params, only_with_new_option, strip_new_options
 
 
 def _returns(f: Func) -> List[ast.Return]:
@@ -82,10 +82,10 @@ def exh5(ctx: Ctx) -> List[Ob]:
         ok = True if all(any(any(x is r_ for x in ast.walk(s_)) for s_ in stmts_before(ctx, f, did_calls[0])) for r_ in idmap_read) else False
     obs.append(ctx.tri("EXH-5", ["C09", "C02"], f, "node_id is consulted before data_id", None, ok, "resolution order: node_id, then data_id, then data"))
     if did_calls:
-        pc = path_conds(ctx, f, did_calls[0])
-        ok = any(pol and match(f"{p} in self._nodes_by_data_id", e) is not None for e, pol in pc)
+        # (one lookup pair per branch of the canonical form: an int key that is no node_id, any other key)
+        ok = all(any(pol and match(f"{p} in self._nodes_by_data_id", e) is not None for e, pol in path_conds(ctx, f, dc)) for dc in did_calls)
         plain = [n for n, _e in find(f"self.find_all({p})", f.node)]
-        ok = ok and len(plain) == 1 and any((not pol) and has(f"{p} in self._nodes_by_data_id", e) for e, pol in path_conds(ctx, f, plain[0]))
+        ok = ok and len(plain) >= 1 and all(any((not pol) and has(f"{p} in self._nodes_by_data_id", e) for e, pol in path_conds(ctx, f, pl)) for pl in plain)
         obs.append(ctx.ob("EXH-5", ["C09", "C02"], f, "a key present in the data_id index is looked up as data_id, anything else as data", None, ok, "" if ok else "data_id before data"))
     ret = find_cases(cases, "return", "$$r[0]")
     obs.append(ctx.ob("EXH-5", ["C09"], f, "the single match is returned", None, len(ret) >= 1, ""))  # (one return per lookup branch in the canonical form)
@@ -520,7 +520,7 @@ def parent_walk(ctx: Ctx) -> List[Ob]:
     sk = _parent_walk(ctx, f)
     ok, why = None, "shape not recognised"
     if sk is not None:
-        cs = exit_cases(ctx, f, ("return",))
+        cs = [c for c in exit_cases(ctx, f, ("return",)) if not only_with_new_option(f, c.conds)]
         trues = find_cases(cs, "return", "True")
         falses = find_cases(cs, "return", "False")
         if trues and falses:
@@ -538,7 +538,7 @@ def parent_walk(ctx: Ctx) -> List[Ob]:
     f = m.func("Node.is_ancestor_of")
     o = _first_param(f)
     ret = _single_return(ctx, f)
-    T(["C10"], f, "is_ancestor_of is the converse of is_descendant_of", None if ret is None else match(f"{o}.is_descendant_of(self)", ret.value) is not None, "")
+    T(["C10"], f, "is_ancestor_of is the converse of is_descendant_of", None if ret is None else match(f"{o}.is_descendant_of(self)", strip_new_options(f, ret.value)) is not None, "")
     f = m.func("Node.get_parent_list")
     ap = find("$res.append($p)", f.node)
     ok = None
@@ -644,11 +644,13 @@ def parent_walk(ctx: Ctx) -> List[Ob]:
         incs = find("$i += 1", lps[0])
         if len(incs) == 1 and isinstance(lps[0].target, ast.Name):
             nv = lps[0].target.id
-            cts = sorted(cond_texts(path_conds(ctx, f, incs[0][0])))
+            # (a guard that skips the walk for a childless start node does not change the count)
+            pcs_ = [(e, pol) for e, pol in path_conds(ctx, f, incs[0][0]) if not (pol and norm(e) in ("self._children", "self.has_children()", "self.children"))]
+            cts = sorted(cond_texts(pcs_))
             ok = match("self.iterator()", lps[0].iter) is not None and cts in ([f"(not leaves_only or not {nv}._children)"], [f"not (leaves_only and {nv}._children)"])
             if not ok:
                 ok = match("self.iterator()", lps[0].iter) is not None and any(
-                    pol and norm(e) == f"not leaves_only or not {nv}._children" for e, pol in path_conds(ctx, f, incs[0][0])) and len(path_conds(ctx, f, incs[0][0])) == 1
+                    pol and norm(e) == f"not leaves_only or not {nv}._children" for e, pol in pcs_) and len(pcs_) == 1
     T(["C10"], f, "count_descendants counts the walk (leaves only: nodes without children)", ok, "every node of the default walk counts once; with leaves_only exactly the childless ones")
     f = m.func("Node.calc_height")
     g = [x for x in f.nested]
@@ -671,6 +673,8 @@ def parent_walk(ctx: Ctx) -> List[Ob]:
         tree_same = any(pol and norm(e) in (f"self._tree is {o}._tree", f"{o}._tree is self._tree") for e, pol in ret.conds)
         member = any(pol and match("$$p._node_id in $$s", e) is not None for e, pol in ret.conds)
         ok = tree_same and member and has(f"{o}.get_parent_list(add_self=True)", f.node) and has("self.get_parent_list(add_self=True, bottom_up=True)", f.node)
+        if not ok and not any("get_parent_list" in norm(c_.func) for c_ in ctx.env.calls_in[f]) and any(isinstance(n_, ast.While) for n_ in iter_own(f.node)):
+            ok = None  # the two ancestor chains are followed by hand (parent links): not read by this clause
     T(["C10"], f, "get_common_ancestor: nearest (bottom-up) own ancestor-or-self whose node_id is among other's", ok, "")
     return obs
 
@@ -745,6 +749,19 @@ def frame(ctx: Ctx) -> List[Ob]:
     f = m.func("Node.rename")
     ok = bool(find_cases(exit_cases(ctx, f, ("return",)), "return", f"self.set_data({_first_param(f)})", [("isinstance(self._data, str)", True)])) \
         or bool(find_under(ctx, f, f"self.set_data({_first_param(f)})", [("isinstance(self._data, str)", True)]))
+    if not ok:
+        # the same call with a *new* option of rename() handed on (a parameter the reference's rename does not have)
+        from ..known_funcs import KNOWN_PARAMS
+
+        ref = KNOWN_PARAMS.get(f"{f.module}:{f.qualname}", ())
+        newp = {p_ for p_ in f.param_names() if p_ not in ref and p_ != f.self_name}
+        for c in ctx.env.calls_in[f]:
+            if norm(c.func) == "self.set_data" and len(c.args) == 1 and norm(c.args[0]) == _first_param(f) and c.keywords and all(
+                    k.arg not in (None, "data_id") and ((isinstance(k.value, ast.Name) and k.value.id in newp) or (isinstance(k.value, ast.Constant) and k.value.value is None))
+                    for k in c.keywords):
+                ts = cond_texts(path_conds(ctx, f, c))
+                if "isinstance(self._data, str)" in ts:
+                    ok = True
     obs.append(ctx.ob("FRAME", ["C04"], f, "rename is set_data(new_name) for plain string nodes", None, ok, ""))
     f = m.func("Node.set_data")
     loops = [n for n in ast.walk(f.node) if isinstance(n, ast.For) and any(
@@ -1165,6 +1182,8 @@ def gen(ctx: Ctx) -> List[Ob]:
             # the dotted path
             rr = [c for c in ast.walk(il) if isinstance(c, ast.Call) and norm(c.func) == "_resolve_random_dict"]
             ok = None
+            mdv = None
+            md: Dict[str, ast.AST] = {}
             if len(rr) == 1:
                 mk = [k for k in rr[0].keywords if k.arg == "macros"]
                 mdv = None
@@ -1184,7 +1203,17 @@ def gen(ctx: Ctx) -> List[Ob]:
                     dat = norm(resolve_expr(ctx, f, rr[0], rr[0].args[0], keep=[spv])) if rr[0].args else "?"
                     own = dat in (f"{spv}.copy()", f"dict({spv})") or (dat.endswith(".copy()") and len(dat) > 7) or (dat.startswith("dict(") and dat.endswith(")")) or dat.startswith("{**")
                     T(f, "_make_tree: each node gets its own attribute dict", own, f"the randomizers are resolved in `{dat}`")
-            T(f, "_make_tree: both macros supplied (idx, hier_idx = dotted index path from the parent's prefix)", ok, "")
+            if ok is None and rr:
+                # some call resolves the attributes without the macros at all (`macros=None`, or no macros argument)
+                for c_ in rr:
+                    mk_ = [k for k in c_.keywords if k.arg == "macros"]
+                    if not mk_ and len(c_.args) < 2:
+                        ok = False
+                    elif mk_:
+                        mv_ = reaching_values(ctx, f, c_, mk_[0].value) if isinstance(mk_[0].value, ast.Name) else [mk_[0].value]
+                        if mv_ and any(isinstance(v_, ast.Constant) and v_.value is None for v_ in mv_):
+                            ok = False
+            T(f, "_make_tree: both macros supplied (idx, hier_idx = dotted index path from the parent's prefix)", ok, "on some path the attributes are resolved without the {idx} / {hier_idx} macros: strings produced by a randomizer keep their placeholders")
             adds = [c for c in ast.walk(il) if isinstance(c, ast.Call) and norm(c.func) == "parent_node.add_child"]
             ok = None
             if adds:
@@ -1207,7 +1236,7 @@ def gen(ctx: Ctx) -> List[Ob]:
                 pn_vals = reaching_values(ctx, f, recs[0], kw.get("parent_node")) if kw.get("parent_node") is not None else []
                 ok = f"{ntv} in relations" in ts and bool(adds) and all(any(v_ is a_ for a_ in adds) for v_ in pn_vals) and len(pn_vals) == len(adds) \
                     and norm(kw.get("parent_type")) == ntv and norm(kw.get("types")) == "types" and norm(kw.get("relations")) == "relations" \
-                    and rr and mdv is not None and norm(kw.get("prefix")) == norm(md["'hier_idx'"])
+                    and (None if mdv is None or "'hier_idx'" not in md else norm(kw.get("prefix")) == norm(md["'hier_idx'"]))
             T(f, "_make_tree: recursion below the new node with its type and prefix, only for types that have relations", ok, "")
         else:
             T(f, "_make_tree: exactly `count` children per relation; count defaults to 1 and randomized counts are resolved (None -> 0)", None, "count loop not recognised")
@@ -1259,31 +1288,49 @@ def search(ctx: Ctx) -> List[Ob]:
     m = ctx.model
     f = m.func("Node._search")
     lps = [n for n in iter_own(f.node) if isinstance(n, ast.For)]
-    ok = len(lps) == 1 and match("self.iterator(add_self=add_self)", lps[0].iter) is not None
+
+    def _walk_of(lp: ast.For) -> bool:
+        if match("self.iterator(add_self=add_self)", lp.iter) is not None:
+            return True
+        if isinstance(lp.iter, ast.Name):
+            vals = reaching_values(ctx, f, lp, lp.iter)
+            return len(vals) == 1 and match("self.iterator(add_self=add_self)", vals[0]) is not None
+        return False
+
+    # (one loop, or one loop per mode - limited / unlimited - over the same walk)
+    ok = len(lps) >= 1 and all(_walk_of(lp) for lp in lps)
     obs.append(ctx.ob("SEARCH", ["C09"], f, "_search iterates self.iterator(add_self=add_self) (pre-order), the only loop", None, ok,
                       "" if ok else "matches must come in pre-order over the searched branch, and the start node is counted against the limit like any other"))
     ys = [x for x in iter_own(f.node, into_lambda=False) if isinstance(x, (ast.Yield, ast.YieldFrom))]
     cbv = None
-    if lps:
-        lp = lps[0]
+    n_inside = 0
+    for lp in lps:
         v = norm(lp.target)
         inside_ids = {id(x) for x in ast.walk(lp)}
         inside = [x for st in lp.body for x in ast.walk(st) if isinstance(x, ast.Yield)]
+        n_inside += len(inside)
         ok: Optional[bool] = None
         if len(inside) == 1:
             atoms = [(e, pol) for e, pol in path_conds(ctx, f, inside[0]) if id(getattr(e, "_orig", e)) in inside_ids and "max_results" not in norm(e)]
             sel = [(e, pol) for e, pol in atoms if isinstance(e, ast.Call) and isinstance(e.func, ast.Name) and [norm(a_) for a_ in e.args] == [v]]
             if len(sel) == 1 and len(atoms) == 1:
                 ok = sel[0][1] is True
-                cbv = sel[0][0].func.id
+                cbv = sel[0][0].func.id if cbv in (None, sel[0][0].func.id) else cbv
             elif atoms:
                 ok = None
             else:
                 ok = False
         obs.append(ctx.tri("SEARCH", ["C09"], f, "non-matching nodes are skipped, matching ones yielded", lp, ok, "selection inverted or missing"))
-        ok = len(inside) == 1 and len(ys) == 1 and all(norm(x_) == v for x_ in reaching_values(ctx, f, inside[0], inside[0].value))
+        ok = len(inside) == 1 and all(norm(x_) == v for x_ in reaching_values(ctx, f, inside[0], inside[0].value))
+        if ok and len(lps) > 1:
+            # a loop that does not count its hits is the unlimited mode: it runs only when no limit was given
+            counted = any(isinstance(x, (ast.AugAssign, ast.Break, ast.Return)) or (isinstance(x, ast.Call) and norm(x.func) in ("islice", "itertools.islice")) for x in ast.walk(lp))
+            if not counted:
+                ok = any((not pol) and norm(e) == "max_results" or pol and norm(e) in ("max_results is None", "not max_results") for e, pol in path_conds(ctx, f, lp))
         obs.append(ctx.ob("SEARCH", ["C09"], f, "each match is yielded once, inside the counted loop", lp, ok,
                           "" if ok else "a yield outside the counted loop escapes the result limit"))
+    if lps and n_inside != len(ys):
+        obs.append(ctx.ob("SEARCH", ["C09"], f, "each match is yielded once, inside the counted loop", None, False, "a yield outside the counted loop escapes the result limit"))
     ok = None
     if cbv is not None:
         table: Dict[str, str] = {}
@@ -1298,6 +1345,10 @@ def search(ctx: Ctx) -> List[Ob]:
                 if isinstance(body, ast.Call) and isinstance(body.func, ast.Attribute) and isinstance(body.func.value, ast.Name):
                     src = reaching_values(ctx, f, n, body.func.value)
                     table[key] = f"lambda: {norm(src[0]) if len(src) == 1 else '?'}.{body.func.attr}({', '.join(norm(a_).replace(arg, 'N') for a_ in body.args)})"
+                elif isinstance(body, ast.Call) and isinstance(body.func, ast.Name) and body.func.id != arg:
+                    # a bound method kept in a local (`fullmatch = re.compile(...).fullmatch`)
+                    src = reaching_values(ctx, f, n, body.func)
+                    table[key] = f"lambda: {norm(src[0]) if len(src) == 1 else '?'}({', '.join(norm(a_).replace(arg, 'N') for a_ in body.args)})"
                 else:
                     table[key] = "lambda: " + norm(body).replace(arg, "N")
             else:
